@@ -51,4 +51,40 @@ CHECKS = [
         "text": "Theorem json_literal_exact: for every text (all code points) and every continuation, the encoder's output followed by the continuation lexes as one double-quoted literal whose value is the text, leaving the continuation; so the wrapper module.exports = JSON.parse(<literal>) evaluates nothing but JSON.parse(text). The encoder model is compared with the real json.Marshal on every generated content, and the real require() result with JSON.parse of the same text in the same runtime, with sentinel globals.",
         "note": "Trusted: Lean kernel, harness, goja's lexer (assumed to follow the grammar transcribed in lexBody) and JSON.parse.",
     },
+    {
+        "property_id": "C03",
+        "technique": "Lean 4 proof: invariants of a small-step transition system over every interleaving (induction over Reach) + trace validation of the real loop under a controlled scheduler against the executable model and, via a label mapping, against the transition system itself",
+        "text": "Theorems over every reachable state of GN.EventLoop.Queue: one executor exists exactly while running is set or Terminate drains; a function is executed only by the running loop or inside Terminate; a submission to a stopped loop only queues; a second start is impossible. The detailed model additionally monitors every recorded trace: two callbacks never overlap, callbacks run only on the executing thread, none begins between Stop's return and the next start (except inside Terminate).",
+        "note": "Trusted: Lean kernel; the controlled scheduler and the event-to-label mapping; Go's synchronisation primitives and timers (modelled). What is sampled is only which schedules of the real loop are replayed; the theorems quantify over all interleavings of the model.",
+    },
+    {
+        "property_id": "C04",
+        "technique": "Lean 4 proof: invariants of a small-step transition system over every interleaving (induction over Reach) + trace validation of the real loop under a controlled scheduler against the executable model and, via a label mapping, against the transition system itself",
+        "text": "Theorems over every interleaving of any number of submitters with the loop's drain/select cycle and Stop/Start/Terminate: accepted = executed ++ batch ++ queue (exactly once, acceptance order), refused functions never run, no lost wake-up (queued function at a parked loop implies a token present or owed), Terminate drains everything, controller steps keep the queue; stepQ only takes steps of the system. Every recorded trace of the real loop is replayed through stepQ and through the detailed model, which checks that the callback that begins is the head of the batch.",
+        "note": "Trusted: Lean kernel; the controlled scheduler and the event-to-label mapping; Go's synchronisation primitives and timers (modelled). What is sampled is only which schedules of the real loop are replayed; the theorems quantify over all interleavings of the model.",
+    },
+    {
+        "property_id": "C07",
+        "technique": "Lean 4 proof: invariants of a small-step transition system over every interleaving (induction over Reach) + trace validation of the real loop under a controlled scheduler against the executable model and, via a label mapping, against the transition system itself",
+        "text": "Theorems: while Stop waits, canRun is 0 and the token is present or the loop is between consuming it and its exit; from there chk leads to exit and exit wakes Stop; Stop/StopNoWait on a stopped loop are not enabled (no effect); StopNoWait is two non-blocking steps enabled inside a callback; nothing accepted is lost across stop/start; restart is enabled after exit. Traces with Stop at every point of the loop's cycle are replayed; a Stop that does not return is reported by the stuck detector.",
+        "note": "Trusted: Lean kernel; the controlled scheduler and the event-to-label mapping; Go's synchronisation primitives and timers (modelled). What is sampled is only which schedules of the real loop are replayed; the theorems quantify over all interleavings of the model.",
+    },
+    {
+        "property_id": "C08",
+        "technique": "Lean 4 proof: invariants of a small-step transition system over every interleaving (induction over Reach) + trace validation of the real loop under a controlled scheduler against the executable model and, via a label mapping, against the transition system itself",
+        "text": 'Theorems: while terminated every submission is refused, the flag stays until the next start which clears it, terminated implies not running and an empty queue after the swap, Terminate has executed everything accepted, a start after Terminate yields empty queue and batch. Goroutine/timer cleanliness is in the ledger system (GN.EventLoop.Ledger) and observed: after the final Terminate no goroutine created by the loop is alive and jobCount = len(jobs) = 0.',
+        "note": "Trusted: Lean kernel; the controlled scheduler and the event-to-label mapping; Go's synchronisation primitives and timers (modelled). What is sampled is only which schedules of the real loop are replayed; the theorems quantify over all interleavings of the model.",
+    },
+    {
+        "property_id": "C05",
+        "technique": "Lean 4 proof: per-job and counting invariants of the job-ledger transition system over every history (induction over Reach; List.modify/countP lemmas), an int64 arithmetic theorem about the regenerated delay conversion + trace validation of the real loop under a controlled scheduler",
+        "text": 'Theorems over every reachable state of GN.EventLoop.Ledger: a timeout/immediate fires at most once; a job cleared before its callback began never fires, in any later state; a firing step needs a live job (delivery re-checks the flag on the loop); clearing twice is the no-op; and about msToDuration as re-extracted from eventloop.go: the ms->ns conversion never wraps (saturates), so a delay is never shortened. Every trace additionally checks with monotonic timestamps that no callback begins before its delay / one period, that the callback that runs is the one registered, and that the recorded steps are steps of the ledger system.',
+        "note": "Trusted: Lean kernel; the controlled scheduler and the event-to-label mapping; Go's timers (never early), channels and select (modelled).",
+    },
+    {
+        "property_id": "C06",
+        "technique": "Lean 4 proof: per-job and counting invariants of the job-ledger transition system over every history (induction over Reach; List.modify/countP lemmas), an int64 arithmetic theorem about the regenerated delay conversion + trace validation of the real loop under a controlled scheduler",
+        "text": "Theorems: jobCount equals the number of set, not yet fired/cleared jobs in every reachable state (any history of set/clear from JS and Go, expirations, deliveries live or dead, Terminate's cancel loop, restarts); it is 0 exactly when no live job is left (the loop's exit condition); clear decrements only for a live job, otherwise it is the no-op; a refused setImmediate is not counted; after Terminate the registry is empty and the count 0. Every recorded step of the real loop compares jobCount and len(jobs) with the model, Stop()'s return value with the count, and Run()'s exit/continue decision with it.",
+        "note": "Trusted: Lean kernel; the controlled scheduler and the event-to-label mapping; Go's timers (never early), channels and select (modelled).",
+    },
 ]
